@@ -172,8 +172,7 @@ def run_case(d):
         cls.append('threads-differ')
     # cross == auto
     _compare(base, _run(ps, d, pos, w, d['nthread'], pos2=pos, w2=w), 'cross=auto', floor=floor)
-    if d['seed'] % 2 == 0:
-        _compare(base, _run(ps, d, pos, w, d['nthread'], alias=True), 'cross=auto:same-array-object', floor=floor)
+    _compare(base, _run(ps, d, pos, w, d['nthread'], alias=True), 'cross=auto:same-array-object', floor=floor)
     # bookkeeping independent of the particles
     q, wq = _particles(dict(d, n=max(1, d['n'] // 2 + 1), dist='uniform'), seed_shift=17)
     _compare(base, _run(ps, d, q, wq, d['nthread']), 'other-particles', floats=False)
